@@ -337,7 +337,8 @@ def run(ck):
     for fn in sorted(os.listdir(cdir)) if os.path.isdir(cdir) else []:
         txt = open(os.path.join(cdir, fn)).read()
         m = [l.split(":", 1)[1].split() for l in txt.splitlines() if l.startswith("# modules:")]
-        cm = [os.path.join(vlib.REPO, x) for x in (m[0] if m else ["test/test.xm"])]
+        cm = [os.path.join(vlib.VERIF, x[6:]) if x.startswith("verif:") else os.path.join(vlib.REPO, x)
+              for x in (m[0] if m else ["test/test.xm"])]
         rc, text, err = run_text(exe, ["replay", os.path.join(cdir, fn), wav] + cm, timeout=300)
         seqs = split_sequences(text)
         rows, xrows = judge(seqs)
